@@ -275,8 +275,8 @@ func (d *drv) f15(rng *rand.Rand) {
 }
 
 func run(c *eng.Ctx) error {
-	n := c.N(200, 3000)
-	nf15 := c.N(3, 6)
+	n := c.N(150, 1200)
+	nf15 := c.N(2, 4)
 	peers := make([]core.PeerID, npeers)
 	names := map[core.PeerID]string{}
 	for i := range peers {
